@@ -157,7 +157,7 @@ def ob_seq1(prefix_all: bool, p: int, op: int, n: int) -> bool:
     pp, oo, nn = H.select(p, 0, L + 1), H.select(op, 0, 7), H.select(n, -3, L + 3)
     with H.native():
         ops = ([("readall", 0)] if pa else []) + [("seek0", pp), (OPS[oo], nn)]
-        with H.Watchdog(20):
+        with H.Watchdog(90):
             probs = run_sequence(H.P("codec"), payload, H.P("level", 3), H.P("bs"), ops)
         for m in probs:
             H.note(m)
@@ -181,7 +181,7 @@ def ob_seq2(p: int, op1: int, n1: int, op2: int, n2: int) -> bool:
     a1, a2 = H.select(n1, -2, L + 2), H.select(n2, -2, L + 2)
     with H.native():
         ops = [("seek0", pp), (OPS[H.P("op1")], a1), (OPS[o2], a2)]
-        with H.Watchdog(20):
+        with H.Watchdog(90):
             probs = run_sequence(H.P("codec"), payload, 3, H.P("bs"), ops)
         for m in probs:
             H.note(m)
@@ -226,7 +226,7 @@ def ob_big(si: int, kind: int, a1: int, op1: int, a2: int, op2: int) -> bool:
         names = ["read", "seek0", "seek1"]
         payload = _big_payload(BIG_SIZES[s], k)
         ops = [(names[o1], BIG_AMOUNTS[x1]), (names[o2], BIG_AMOUNTS[x2])]
-        with H.Watchdog(30):
+        with H.Watchdog(90):
             probs = run_sequence(H.P("codec"), payload, H.P("level", 3), 8192, ops)
         for m in probs:
             H.note(m[:300])
